@@ -14,6 +14,7 @@ Program AST (JSON; this is the replay format) -- see DESIGN.md section 4.1:
     Struct  = null | ["T"|"L", [Struct..]] | ["D", [[key, Struct]..]] | Leaf
     Leaf    = ["task", Task] | ["ref", tid] | ["item", kind, arg, "ok"|"err"|"unset", uid]
             | ["ditem", name, result, uid] | ["const", v] | ["nonef"] | ["errfut", uid]
+            | ["tool", name, ...]   (a library tool used inside the program, see "library tools" below)
             | ["lazy", "ok"|"raise", uid] | ["slazy", "ok"|"raise", k]  (one Future object per k, wherever it appears) | ["bad", v]
     Ctx     = ["rec", cid] | ["ov", sv, val] | ["attr", obj, val] | ["na", cid]
             | ["fail", cid, resume_at|null, pause_at|null]
@@ -121,6 +122,10 @@ class RecCtx(AsyncContext):
         self.active = False
         self.ev = []
         env.ctxs[cid] = self
+
+    def __exit__(self, *exc_info):
+        self.ev.append("X")          # the block is being left: exactly one pause follows, then nothing
+        return AsyncContext.__exit__(self, *exc_info)
 
     def resume(self):
         self.ev.append("r")
@@ -310,6 +315,11 @@ class Env(object):
         self.check_c06 = False
         self.flush_snapshots = []
         self.keep = []         # futures kept alive for the whole case
+        self.gens = {}         # (tid, gid) -> async generator object iterated by hand
+        self.tool_uid = 0      # items created inside library-tool bodies get negative uids
+        self.dd_inside = {}    # deduplicated tool bodies: key -> the body is re-entering itself right now
+        self.retry_runs = {}   # aretry tool: key -> attempts so far
+        self.tool_runs = {}    # (tool, key) -> body runs
         self.shared_lazy = {}  # k -> the one Future object of ["slazy", mode, k]
         self.lazy_runs = {}    # k -> times its provider ran
         self.lazy_notes = {}   # k -> times its on_computed subscriber was notified
@@ -531,12 +541,161 @@ def build(env, s, futs, me, fresh):
                 return ["slazy", k]
             f = env.shared_lazy[k] = Future(prov)
             f.on_computed.subscribe(lambda fut: env.lazy_notes.__setitem__(k, env.lazy_notes.get(k, 0) + 1))
+    elif tag == "tool":
+        f = build_tool(env, s)
     elif tag == "bad":
         return s[1]
     else:
         raise AssertionError("unknown leaf %r" % (tag,))
     futs.append(f)
     return f
+
+
+# ---- library tools inside programs ---------------------------------------------------------------
+# ["tool", "dd", k, kind]            deduplicated function; k % 4: 0 plain, 1 re-enters itself once with the same key
+#                                    (the documented escape hatch), 2 handles a failed dependency and re-enters itself
+#                                    from the handler (C08 only: the outcome is not specified), 3 raises
+# ["tool", "alru", k, kind]          alru_cache'd function
+# ["tool", "agen", n, kind, cid0, m] list_of_generator over an @async_generator() body of n items; m: "plain" | "await"
+#                                    (a recording context around each awaited future) | "value" (around each Value)
+# ["tool", "amap"|"asorted"|"amin"|"amax"|"afilter", k, n, kind]   collection helper over n elements, key/predicate blocks on an item
+# ["tool", "retry", k, kind]         aretry'd function whose first attempt fails with a listed exception
+# ["tool", "cwc", k, kind, cid]      call_with_context(recording context, function)
+
+class HRetry(Exception):
+    pass
+
+
+def _titem(env, kind, arg):
+    env.tool_uid -= 1
+    return HItem(env, kind, arg, "ok", env.tool_uid)
+
+
+def _count(env, tool, k):
+    env.tool_runs[(tool, k)] = env.tool_runs.get((tool, k), 0) + 1
+
+
+@_tools.deduplicate()
+@A()
+def t_dd(env, k, kind):
+    if env.dd_inside.get(k):
+        return ["dd-inner", k]          # the private task of a call made from inside the running body
+    _count(env, "dd", k)
+    mode = k % 4
+    if mode == 3:
+        raise env.exc(("dd", k))
+    inner = None
+    if mode == 1:
+        env.dd_inside[k] = True
+        try:
+            inner = t_dd.asynq(env, k, kind).value()
+        finally:
+            env.dd_inside[k] = False
+    elif mode == 2:
+        try:
+            yield ErrorFuture(env.exc(("dd-dep", k)))
+        except HExc:
+            env.dd_inside[k] = True
+            try:
+                inner = t_dd.asynq(env, k, kind).value()
+            except BaseException as e:
+                inner = ["inner-raised", type(e).__name__]
+            finally:
+                env.dd_inside[k] = False
+        if k >= 4:
+            return ["dd", k, None, inner]
+    v = yield _titem(env, kind, k)
+    return ["dd", k, shape(v), inner]
+
+
+@_tools.alru_cache(maxsize=32)
+@A()
+def t_alru(env, k, kind):
+    _count(env, "alru", k)
+    v = yield _titem(env, kind, k)
+    return ["alru", k, shape(v)]
+
+
+@asynq.async_generator()
+def t_gen(env, n, kind, cid0, mode):
+    for i in range(n):
+        if mode == "await":
+            with RecCtx(env, cid0 + i, None):
+                v = yield _titem(env, kind, i)
+            yield asynq.Value(["g", i, shape(v)])
+        elif mode == "value":
+            v = yield _titem(env, kind, i)
+            with RecCtx(env, cid0 + i, None):
+                yield asynq.Value(["g", i, shape(v)])
+        elif mode == "span":
+            break
+        else:
+            v = yield _titem(env, kind, i)
+            yield asynq.Value(["g", i, shape(v)])
+    if mode == "span":
+        # one block around several Values (no await inside: this part of the body runs in the consumer's own steps), then an await
+        with RecCtx(env, cid0, None):
+            for i in range(n):
+                yield asynq.Value(["g", i, ["v", kind, i]])
+        v = yield _titem(env, kind, n)
+        yield asynq.Value(["g", n, shape(v)])
+
+
+def t_key(env, kind):
+    @A()
+    def key(x):
+        v = yield _titem(env, kind, x)
+        return v[2]                      # the item's value is ["v", kind, arg]
+    return key
+
+
+def t_pred(env, kind):
+    @A()
+    def pred(x):
+        v = yield _titem(env, kind, x)
+        return v[2] % 2 == 0
+    return pred
+
+
+def _retry_body(env, k, kind):
+    n = env.retry_runs[k] = env.retry_runs.get(k, 0) + 1
+    v = yield _titem(env, kind, k)
+    if n == 1:
+        raise HRetry(k)
+    return ["retry", k, n, shape(v)]
+
+
+t_retry = _tools.aretry(HRetry, max_tries=2, sleep=0)(A()(_retry_body))
+
+
+@A()
+def t_plain(env, k, kind):
+    v = yield _titem(env, kind, k)
+    return ["plain", k, shape(v)]
+
+
+def build_tool(env, s):
+    name = s[1]
+    if name == "dd":
+        return t_dd.asynq(env, s[2], s[3])
+    if name == "alru":
+        return t_alru.asynq(env, s[2], s[3])
+    if name == "agen":
+        return asynq.list_of_generator.asynq(t_gen(env, s[2], s[3], s[4], s[5]))
+    if name in ("amap", "asorted", "amin", "amax", "afilter"):
+        k, n, kind = s[2], s[3], s[4]
+        xs = list(range(k + n - 1, k - 1, -1))
+        if name == "amap":
+            return _tools.amap.asynq(t_key(env, kind), xs)
+        if name == "afilter":
+            return _tools.afilter.asynq(t_pred(env, kind), xs)
+        fn = {"asorted": _tools.asorted, "amin": _tools.amin, "amax": _tools.amax}[name]
+        return fn.asynq(xs, key=t_key(env, kind))
+    if name == "retry":
+        return t_retry.asynq(env, s[2], s[3])
+    if name == "cwc":
+        return _tools.call_with_context.asynq(RecCtx(env, s[4], None), t_plain, env, s[2], s[3])
+    raise AssertionError("unknown tool %r" % (name,))
 
 
 def make_ctx(env, rec, c):
@@ -754,6 +913,35 @@ def exec_block(env, rec, me, body):
             t = st["task"]
             r = env.recs[t["id"]] = Rec(t, None, "mk")
             r.handle = run_task.asynq(env, t)
+        elif op == "genstart":
+            # an async generator iterated by hand, a few items at a time, by later "gennext" statements of this task
+            env.gens[(tid, st["gid"])] = t_gen(env, st["n"], st["kind"], st["cid0"], st["mode"])
+        elif op == "gennext":
+            g = env.gens.get((tid, st["gid"]))
+            vals = []
+            for _ in range(st["count"] if g is not None else 0):
+                try:
+                    t = next(g)
+                except StopIteration:
+                    break
+                futs = [t]
+                rec.last = futs
+                rec.yields += 1
+                leave_body(env, rec)
+                try:
+                    v = yield t
+                except BaseException as e:
+                    env.run_stack.append(tid)
+                    if isinstance(e, GeneratorExit):
+                        rec.closing = True
+                    raise
+                enter_body(env, rec, me)
+                rec.resumes += 1
+                _after_resume(env, rec, futs, [])
+                if v is asynq.generator.END_OF_GENERATOR:
+                    continue
+                vals.append(shape(v))
+            rec.got.append(["gen", vals])
         else:
             raise AssertionError("unknown op %r" % (op,))
 
